@@ -301,22 +301,6 @@ example : (run demo).loc.map (·.l.loc) = [0, 1, 2, 3] := by decide
 
 /-! ## reverse lookup (GlobalLookupIndexSet) -/
 
-theorem eq_of_nodup_map {β : Type} (f : Pair → β) : ∀ (xs : List Pair), (xs.map f).Nodup →
-    ∀ p ∈ xs, ∀ q ∈ xs, f p = f q → p = q
-  | [], _, p, hp, _, _, _ => by cases hp
-  | x :: xs, hn, p, hp, q, hq, hf => by
-    simp only [List.map_cons, List.nodup_cons] at hn
-    rcases List.mem_cons.1 hp with hpx | hp'
-    · rcases List.mem_cons.1 hq with hqx | hq'
-      · rw [hpx, hqx]
-      · exact absurd (by rw [← hpx, hf]; exact List.mem_map.2 ⟨q, hq', rfl⟩) hn.1
-    · rcases List.mem_cons.1 hq with hqx | hq'
-      · exact absurd (by rw [← hqx, ← hf]; exact List.mem_map.2 ⟨p, hp', rfl⟩) hn.1
-      · exact eq_of_nodup_map f xs hn.2 p hp' q hq' hf
-
-theorem replicate_none_getElem? (n j : Nat) (hj : j < n) : (List.replicate n (none : Option Pair))[j]? = some none := by
-  simp [hj]
-
 /-- `GlobalLookupIndexSet(set)`: when the local numbers are pairwise distinct the table inverts the map —
 `pair(p.local) = p` for every stored pair, a null pointer in every cell whose number no pair carries (stated for the
 cells INSIDE the table only: `pair(j)` with `j ≥ size` is an out-of-range read in the C++ code); its size is max local + 1 -/
